@@ -1393,12 +1393,21 @@ static void vc_execute(void)
 	if (reg >= 0)
 		buf = reg_get(reg, &lnmode);
 	if (buf != NULL) {
+		int len = strlen(buf);
+		int n = MAX(1, vi_arg1);
 		char cnt[16];
-		if (vi_arg1 > 1) {	/* the remaining executions, after this one */
-			snprintf(cnt, sizeof(cnt), "%d@@", vi_arg1 - 1);
+		int i;
+		if (n > 1 && (long) len * n > term_pushroom()) {
+			/* too long for the queue: this execution, then the remaining ones */
+			if (reg & 0x80)
+				snprintf(cnt, sizeof(cnt), "%d@\\%c", n - 1, reg & 0x7f);
+			else
+				snprintf(cnt, sizeof(cnt), "%d@%c", n - 1, reg);
 			term_push(cnt, strlen(cnt));
+			n = 1;
 		}
-		term_push(buf, strlen(buf));
+		for (i = 0; i < n; i++)
+			term_push(buf, len);
 	}
 }
 
